@@ -206,6 +206,7 @@ def corpus():
         {"kind": "uenc", "s": "a\r\nb"},
         {"kind": "uenc", "s": "~peter/mail/台北/日本語"},                 # RFC 3501 example
         {"kind": "uenc", "s": "&&-&a\U0001F600&"},
+        {"kind": "uenc", "s": "\xe9" * 40},                             # more than one MIME base64 line
         {"kind": "udec", "hex": b"~peter/mail/&U,BTFw-/&ZeVnLIqe-".hex()},
         {"kind": "udec", "hex": b"a&-b&AAk-&Jjo".hex()},
         {"kind": "xdec", "hex": b"Hello+20world+2B+3d+7".hex()},
@@ -244,6 +245,25 @@ def gen(rng, tier):
     for _ in range(400 if tier == "quick" else 6000):
         n = rng.randrange(0, 10)
         cases.append({"kind": "uenc", "s": "".join(rng.choice(UCH) for _ in range(n))})
+    # LONG shifted runs: one uninterrupted run of 27..31, 56..60, 100 (thorough also 1000) UTF-16 code units of
+    # BMP, astral or mixed characters, at the start / in the middle / at the end of the string (base64 flavours
+    # differ only beyond one 76-character output line = 57 input bytes)
+    bmp = ["\xe9", "\u65e5", "\x00", "\t", "\uffff", "\x7f"]
+    astral = ["\U0001F600", "\U00010000", "\U0010FFFF"]
+    for units in [27, 28, 29, 30, 31, 56, 57, 58, 59, 60, 100] + ([] if tier == "quick" else [101, 255, 1000]):
+        for flavour in ("bmp", "astral", "mixed"):
+            run, n = [], 0
+            while n < units:
+                if flavour == "astral" or (flavour == "mixed" and rng.random() < 0.4 and units - n >= 2):
+                    if units - n < 2:
+                        run.append(rng.choice(bmp)); n += 1
+                    else:
+                        run.append(rng.choice(astral)); n += 2
+                else:
+                    run.append(rng.choice(bmp)); n += 1
+            r = "".join(run)
+            for s_ in (r, "ab&" + r + "-z", "x" + r):
+                cases.append({"kind": "uenc", "s": s_})
     ud = b"&-+,AZaz09/= \x80"
     for _ in range(200 if tier == "quick" else 3000):
         n = rng.randrange(0, 10)
@@ -327,6 +347,8 @@ SPEC = Spec(
          "the surrogate borders and plane edges alone and between other characters; decode of random shift/unshift "
          "sequences. non-trivial = output contains an escape",
     trusted=[
+        "translate/c41.py also recognises modified_base64 / modified_unbase64 structurally (after inlining "
+        "single-assignment locals) as the CPython expression the hand-written layer coq/C41/B64.v stands for",
         "translator translate/py2coq.py + translate/c41.py (fail-closed skeleton match; comparison of a bytes item "
         "with a str literal is False; validated by this correspondence run)",
         "hand-written models of the xtext loop, xtext_decode, imap4.encoder and imap4.decoder (coq/C41/Model.v)",
